@@ -290,6 +290,8 @@ Example C10_ex_justified :
   sent_for 0 2 false t = [[7; 8]] /\ sent_for 0 6 false t = [[5]] /\ sent_for 1 4 false t = [] /\
   frames_of 40 (ex_frame 3 [1] ++ ex_frame 4 [] ++ [132]) = [mk_frame (ex_hdr 3 1) [1]; mk_frame (ex_hdr 4 0) []] /\
   frames_of 40 (firstn 9 (ex_frame 3 [1])) = [] /\
+  sent_table [] t = [(2, [7; 8]); (6, [5])] /\
+  sent_table [] [TOut (ex_frame 0 [1]); TIn 0 2 false; TIn 0 4 false; TOut (ex_frame 0 [9])] = [(4, [9])] /\
   justified 2 [7; 8] [t] = true /\
   justified 6 [7; 8] [t] = false /\      (* body of another request on the same stream id *)
   justified 4 [9; 9] [t] = false /\      (* frame cut after 10 of 11 bytes *)
@@ -320,7 +322,11 @@ Example C10_ex_skipped :
   skipped_labels (conn_init false) (labels_of None [TIn 0 2 false; TOut (ex_frame 0 [1]); TClose]) = 0%nat /\
   skipped_labels (conn_init false) (labels_of None [TIn 0 2 false; TIn 0 4 false]) = 1%nat /\
   skipped_labels (conn_init false) (labels_of None [TIn 0 2 false; TIn 1 2 false]) = 3%nat /\
-  skipped_labels (conn_init false) [Recv [1]; Eof; Eof] = 1%nat.
+  skipped_labels (conn_init false) [Recv [1]; Eof; Eof] = 1%nat /\
+  (* a request the mock read after the bytes that broke the connection: tolerated, and failed by the drain *)
+  skipped_labels (conn_init false) (labels_of None [TIn 0 2 false; TOut [4; 0; 0; 0; 0; 0; 0; 0; 0]; TIn 1 4 false; TClose]) = 0%nat /\
+  outcome_of 4 (c_done (simulate None [TIn 0 2 false; TOut [4; 0; 0; 0; 0; 0; 0; 0; 0]; TIn 1 4 false; TClose]))
+    = Some (FailBroken (EHeader FrameFromClient)).
 Proof. vm_compute. repeat split; reflexivity. Qed.
 
 (* td_measure / chan_closed / pending_rids on the phases of a teardown *)
